@@ -252,6 +252,8 @@ class Recorder:
     def stim_flat(self, S):
         """to_stim of a handle on S, read by the independent reader, repeats expanded, fused targets split."""
         from qce_circuit.language.declarative_circuit import DeclarativeCircuit
+        if any(not isinstance(x, int) for _c, _h, kids in self.walk(S) for k in kids for x in self.qubits(k)):
+            return {'status': 'none', 'flat': []}            # Stim addresses qubits by integer; circuits on named qubits are not exportable
         try:
             from qce_circuit.addon_stim import to_stim
             import stimread
@@ -288,7 +290,7 @@ class Recorder:
         the measurement targets in the flattened Stim export."""
         from qce_circuit.language.declarative_circuit import DeclarativeCircuit
         from qce_circuit.structure.intrf_acquisition_operation import AcquisitionTag
-        ms = [o for o in ops if isinstance(o, IAcquisitionOperation)]
+        ms = [o for o in ops if isinstance(o, IAcquisitionOperation) and isinstance(o.qubit_index, int)]
         out = {'by_q': [], 'by_tag': [], 'stim_m': {'status': 'none', 'targets': []}}
         if not ms:
             return out
